@@ -4,6 +4,7 @@
  *     codec   1 RS-2^8, 2 RS-2^m (p1 = m), 3 LDPC-Staircase (p1 = N1, p2 = seed), 5 2D parity
  *     api     0 one of_decode_with_new_symbol per listed ESI (duplicates allowed)
  *             1 one of_set_available_symbols with the set of listed ESIs
+ *             2 as 0, but the state is reported only after the LAST call (large codes: one S token instead of one per call)
  *     cbmode  0 no callback, 1 callback returns a buffer, 2 returns NULL, 3 alternates
  *     finish  0 no, 1 of_finish_decoding at the end
  *     role    2 decoder session is OF_DECODER, 3 OF_ENCODER_AND_DECODER
@@ -19,7 +20,7 @@
  *   PM<i,i,...>                    order in which of_finish_decoding will inject the repair symbols (codecs 3, 5)
  *   F<status><complete>:<source mask>:<repair mask or ->   after of_finish_decoding
  *   E<one letter per source>       '.' not available; R = the application's own received buffer,
- *                                  C = a buffer returned by the callback, L = library allocated;
+ *                                  C = a buffer returned by the callback, L = library allocated, D = the buffer of a later duplicate;
  *                                  upper case = bytes equal the encoded source, lower case = differ
  *   CB<esi>:<size>,...             callback invocations in call order ('s' prefix source, 'r' repair)
  *   RO<0|1>                        every buffer handed to the library (received symbols, encoder sources) unchanged
@@ -68,6 +69,8 @@ static uint64_t sm_next(void) { uint64_t z = (sm_state += 0x9E3779B97F4A7C15ULL)
 
 #define MAXHL 4096
 static long hl[MAXHL], hl_setup, hl_fin; static int nhl;
+#define MAXDUP 4096
+static void *dup_buf[MAXDUP]; static int ndup; static unsigned char seen_esi[MAXN];
 static void *src_cb(void *ctx, UINT32 size, UINT32 esi)
 {
 	void *p = NULL;
@@ -180,9 +183,9 @@ int main(void)
 		p1 = atol(strtok(NULL, " \n")); p2 = atol(strtok(NULL, " \n")); seed = strtoull(strtok(NULL, " \n"), NULL, 10);
 		api = atol(strtok(NULL, " \n")); cbmode = atoi(strtok(NULL, " \n")); finish = atol(strtok(NULL, " \n")); role = atol(strtok(NULL, " \n"));
 		while ((tok = strtok(NULL, " \n"))) esis[nesi++] = atoi(tok);
-		n = k + r; g_L = L; ncb = 0; ncbbuf = 0; sm_state = seed;
+		n = k + r; g_L = L; ncb = 0; ncbbuf = 0; sm_state = seed; ndup = 0;
 		if (n >= MAXN || k < 0 || r < 0) { fprintf(out, "R TOOBIG\n"); continue; }
-		memset(src_tab, 0, sizeof(void *) * (n + 1)); memset(recv_tab, 0, sizeof(void *) * (n + 1));
+		memset(src_tab, 0, sizeof(void *) * (n + 1)); memset(recv_tab, 0, sizeof(void *) * (n + 1)); memset(seen_esi, 0, n + 1);
 		fprintf(out, "R ");
 		/* ---------------- encoder ---------------- */
 		if (of_create_codec_instance(&enc, (of_codec_id_t)codec, OF_ENCODER, 0) != OF_STATUS_OK) { fprintf(out, "CREATE-FAILED\n"); continue; }
@@ -245,12 +248,21 @@ int main(void)
 			hl_setup = lib_blocks;
 			/* the source table before anything was submitted: every entry must be empty (or the call refused) */
 			{ int empty = 1; fetch_src_tab(dec, k); for (i = 0; i < (UINT32)k; i++) if (src_tab[i] || stale[i]) empty = 0; fprintf(out, " GI%d", empty); }
-			if (api == 0) {
+			if (api == 0 || api == 2) {
+				int worst = 0;
 				for (i = 0; i < (UINT32)nesi; i++) {
-					LIB_BEGIN(); st = of_decode_with_new_symbol(dec, recv_tab[esis[i]], esis[i]); LIB_END();
+					/* a duplicate arrives in ANOTHER buffer (a second packet) with the same content; the source table must keep reporting the
+					 * pointer that was supplied first (C10).  The buffer stays intact until the end: the API asks the application to keep
+					 * every submitted buffer available */
+					void *sub = recv_tab[esis[i]];
+					if (seen_esi[esis[i]] && ndup < MAXDUP) { sub = malloc(L ? L : 1); memcpy(sub, recv_tab[esis[i]], L); dup_buf[ndup++] = sub; }
+					seen_esi[esis[i]] = 1;
+					LIB_BEGIN(); st = of_decode_with_new_symbol(dec, sub, esis[i]); LIB_END();
+					if (st > worst) worst = st;
+					if (api == 2 && i + 1 < (UINT32)nesi) continue;
 					if (nhl < MAXHL) hl[nhl++] = lib_blocks;
-					fprintf(out, " S%d%d", st, of_is_decoding_complete(dec) ? 1 : 0);
-					print_masks(dec, codec, k, n, 1);
+					fprintf(out, " S%d%d", api == 2 ? worst : st, of_is_decoding_complete(dec) ? 1 : 0);
+					print_masks(dec, codec, k, n, api == 0);
 				}
 			} else {
 				for (i = 0; i < (UINT32)nesi; i++) avail_tab[esis[i]] = recv_tab[esis[i]];
@@ -296,6 +308,7 @@ int main(void)
 				c = 'L';
 				for (j = 0; j < n; j++) if (src_tab[i] == recv_tab[j]) c = (j == i) ? 'R' : 'X';
 				for (j = 0; j < (UINT32)ncbbuf; j++) if (src_tab[i] == cb_buf[j]) c = 'C';
+				for (j = 0; j < (UINT32)ndup; j++) if (src_tab[i] == dup_buf[j]) c = 'D';
 				okb = !memcmp(src_tab[i], orig[i], L);
 				fputc(okb ? c : c + 32, out);
 			}
@@ -313,11 +326,13 @@ int main(void)
 				if (!src_tab[i]) continue;
 				for (j = 0; j < n; j++) if (src_tab[i] == recv_tab[j]) mine = 1;
 				for (j = 0; j < (UINT32)ncbbuf; j++) if (src_tab[i] == cb_buf[j]) mine = 1;
+				for (j = 0; j < (UINT32)ndup; j++) if (src_tab[i] == dup_buf[j]) mine = 1;
 				if (!mine) free(src_tab[i]);	/* decoded source symbol allocated by the library: owned by the application */
 				src_tab[i] = NULL;
 			}
 		}
 		for (i = 0; i < (UINT32)ncbbuf; i++) free(cb_buf[i]);
+		for (i = 0; i < (UINT32)ndup; i++) free(dup_buf[i]);
 		for (i = 0; i < n; i++) { free(enc_tab[i]); if (recv_tab[i]) free(recv_tab[i]); recv_tab[i] = NULL; if (i < (UINT32)k) free(orig[i]); }
 		if (dec_ok) {
 			fprintf(out, " HL%ld;", hl_setup);
